@@ -163,6 +163,48 @@ class C20(PropertyCheck):
         "thorough": "coordinate form: every single coordinate in [-3,3]^2 and every pair of edge-adjacent "
                     "coordinates in [-2,2]^2 x both flip states x 7 chains",
     }
+    modelled_functions = [
+        "autoarray/structures/triangles/abstract.py:AbstractTriangles.__init__",
+        "autoarray/structures/triangles/abstract.py:AbstractTriangles.__len__",
+        "autoarray/structures/triangles/abstract.py:AbstractTriangles.area",
+        "autoarray/structures/triangles/abstract.py:AbstractTriangles._up_sample_triangle",
+        "autoarray/structures/triangles/abstract.py:AbstractTriangles._neighborhood_triangles",
+        "autoarray/structures/triangles/abstract.py:AbstractTriangles.for_limits_and_scale",
+        "autoarray/structures/triangles/array.py:ArrayTriangles.triangles",
+        "autoarray/structures/triangles/array.py:ArrayTriangles.containing_indices",
+        "autoarray/structures/triangles/array.py:ArrayTriangles.for_indexes",
+        "autoarray/structures/triangles/array.py:ArrayTriangles.up_sample",
+        "autoarray/structures/triangles/array.py:ArrayTriangles.neighborhood",
+        "autoarray/structures/triangles/array.py:ArrayTriangles.with_vertices",
+        "autoarray/structures/triangles/abstract_coordinate_array.py:AbstractCoordinateArray.__init__",
+        "autoarray/structures/triangles/abstract_coordinate_array.py:AbstractCoordinateArray.triangles",
+        "autoarray/structures/triangles/abstract_coordinate_array.py:AbstractCoordinateArray.centres",
+        "autoarray/structures/triangles/abstract_coordinate_array.py:AbstractCoordinateArray.flip_mask",
+        "autoarray/structures/triangles/abstract_coordinate_array.py:AbstractCoordinateArray.vertices",
+        "autoarray/structures/triangles/abstract_coordinate_array.py:AbstractCoordinateArray.indices",
+        "autoarray/structures/triangles/abstract_coordinate_array.py:AbstractCoordinateArray.for_limits_and_scale",
+        "autoarray/structures/triangles/abstract_coordinate_array.py:AbstractCoordinateArray.area",
+        "autoarray/structures/triangles/abstract_coordinate_array.py:AbstractCoordinateArray.__len__",
+        "autoarray/structures/triangles/coordinate_array.py:CoordinateArrayTriangles.flip_array",
+        "autoarray/structures/triangles/coordinate_array.py:CoordinateArrayTriangles.up_sample",
+        "autoarray/structures/triangles/coordinate_array.py:CoordinateArrayTriangles.neighborhood",
+        "autoarray/structures/triangles/coordinate_array.py:CoordinateArrayTriangles._vertices_and_indices",
+        "autoarray/structures/triangles/coordinate_array.py:CoordinateArrayTriangles.with_vertices",
+        "autoarray/structures/triangles/coordinate_array.py:CoordinateArrayTriangles.for_indexes",
+        "autoarray/structures/triangles/coordinate_array.py:CoordinateArrayTriangles.containing_indices",
+        "autoarray/structures/triangles/shape.py:Point.__init__",
+        "autoarray/structures/triangles/shape.py:Point.mask",
+        "autoarray/structures/triangles/shape.py:centroid",
+        "autoarray/structures/triangles/shape.py:Circle.__init__",
+        "autoarray/structures/triangles/shape.py:Circle.mask",
+        "autoarray/structures/triangles/shape.py:Triangle.__init__",
+        "autoarray/structures/triangles/shape.py:Triangle.mask",
+        "autoarray/structures/triangles/shape.py:Triangle.triangle_contains_mask",
+        "autoarray/structures/triangles/shape.py:Polygon.__init__",
+        "autoarray/structures/triangles/shape.py:Polygon.mask",
+        "autoarray/structures/triangles/shape.py:Square.__init__",
+        "autoarray/structures/triangles/shape.py:Square.mask",
+    ]
     trusted_extra = [
         "HEIGHT_FACTOR = 3**0.5/2 is a free parameter h of the theorems; the driver receives the double's "
         "exact rational value",
